@@ -1542,8 +1542,9 @@ def regime_family(ctx, rng, n):
             best = p
             for small in ({**p, "n_nodes": 3, "n_other": 1}, {**p, "n_nodes": 6, "n_other": 4}, {**p, "n_nodes": 20, "n_other": 15}):
                 try:
-                    if any(f2 == f and c2 == cls for f2, c2, _, _ in run_regime(small)):
-                        best = small
+                    hit = [(k2, d2) for f2, c2, k2, d2 in run_regime(small) if f2 == f and c2 == cls]
+                    if hit:
+                        best, (kw, detail) = small, hit[0]
                         break
                 except Exception:  # noqa
                     pass
@@ -1623,8 +1624,23 @@ def run(ctx):
                 "default for other argument pairs; third argument must be H) and, for a sample of the networks, one FLOAT-valued "
                 "callback (non-integral values; implementation + predicate only: all (sparse, index) variants equal, entry = the "
                 "value or its truncation at member pairs, 0 elsewhere), edge weights for the normalised Laplacian (unit, "
-                "non-unit, absent, 0), tensor orders 0-4; every case is run for every (sparse, index) combination; then "
-                "call/edit/call sequences for stale state.  evaluations = calls of the public functions; non-trivial = distinct "
+                "non-unit, absent, 0; networks WITH an empty edge are drawn for it too - predicate only), tensor orders 0-4; every "
+                "case is run for every (sparse, index) combination; then call/edit/call sequences for stale state (stale.check_hg); "
+                "HELD-OBJECT scripts (per run 40 networks x each of the 9 functions): on ONE Hypergraph call with option tuple A, "
+                "then with two tuples that differ from A in exactly one argument (order, s, weighted, rescale_per_node, normalized, "
+                "sparse, index, a constant weight= callback, another orders / weights list), a count-preserving edit "
+                "(stale.count_preserving_edit_hg), A and B again, an ordinary edit (add an edge, possibly with a new node / remove a "
+                "node), A and B again - every call is compared with the same call on H.copy() and judged by the predicate against "
+                "the structure the views show at that moment; REGIME: one large network per run (70-76 node labels: ints of both "
+                "signs, strings, 2**53+1 and 2**53+2, the decimal string of 2**53+1; 130-136 parallel edges on one pair among 35-50 "
+                "other edges of 1-5 members; 3 isolated labels; an edge ID above 2**53): incidence (orders None, 1), adjacency "
+                "(orders None, 1 x weighted x s in {1,2,129,130,131,max count}), degree (None,1,2), intersection profile, clique "
+                "motif, tensor (orders 1, 2), laplacian (orders 1, 2 x rescale), multiorder ([1,2] x two weight lists x rescale), "
+                "normalised (isolated nodes removed) against numpy arrays filled by loops over members(), all (sparse, index) "
+                "variants, eigvalsh for PSD - predicate only, no model call; TUPLE node labels and tuple edge IDs (6 networks built "
+                "with add_node / add_edge(members, idx=...) one at a time; predicate only: the driver reads int/str IDs) and CLASS "
+                "variants (4 SimplicialComplex - downward-closed families built with add_simplex - and 4 networks of a trivial "
+                "subclass of Hypergraph; predicate only), each with a sample of 50-70 cases of the option grid.  evaluations = calls of the public functions; non-trivial = distinct "
                 "(case, result) whose network has an edge with >= 2 members and whose call returned a matrix; `opt:*` entries of "
                 "`distribution` count the option values reached")
     cases = corpus_cases()
@@ -1708,8 +1724,16 @@ def run(ctx):
         "violates for weights != 1.  That known finding has its own failure classes (`…@weighted-nonunit`), emitted only when "
         "weighted=True, some weight != 1 and the returned matrix equals the textbook formula with the unweighted degree; any other "
         "failure at this site keeps the generic classes and is reported.  sqrt is taken by the harness (entry-wise delta_ik - M_ik / "
-        "sqrt(Dv_i Dv_k) from the model's rational M and Dv); networks with an empty edge are not generated for this function "
-        "(delta(e) = 0: NaN dense, finite sparse)",
+        "sqrt(Dv_i Dv_k) from the model's rational M and Dv).  Networks with an EMPTY edge are drawn for this function as "
+        "predicate-only cases (the model answers `undefined` there): the expected matrix is that of the network without the empty "
+        "edge (h(v,e) = 0 for every v: the edge is in no term); the unchanged code returns it with sparse=True and an all-NaN "
+        "matrix with sparse=False - known finding sparse-dense-differ@empty-edge (class emitted only for that pattern; repair in "
+        "proposed_fixes/C12-normalized-empty-edge.diff).  A network with edges but no node at all is not drawn (both variants "
+        "raise ValueError from a (0,0) @ (m,m) product)",
         "sparse == dense is a fact about scipy exhibited by the runs only",
+        "held-object scripts, the large network, tuple labels (node labels / edge IDs that are tuples, also nested and holding "
+        "an integer above 2**53) and class variants (SimplicialComplex, a trivial subclass) are evaluated on the implementation "
+        "only (brute force from members(); no model call: the model correspondence covers int/str labels, <= 7 nodes, <= 12 edges); "
+        "in held-object scripts the two failure classes of the open weighted-degree finding are left to the ordinary family",
     ]
     return finish(ctx, trusted_base=TRUSTED)
